@@ -377,7 +377,7 @@ def bounded(tier, seed):
 
 
 TRUSTED = ["conditions taken verbatim from the statement (pdv/contracts/C02.py: condition)"]
-ASSUMPTIONS = ["finite Robin coefficient with 2 + dx*gamma != 0 (gamma = infinity special case outside the real model)", "NaN/Inf-free values: np.isfinite is true"]
+ASSUMPTIONS = ["finite Robin coefficient with 2 + dx*gamma != 0 (gamma = infinity special case outside the real model)", "NaN/Inf-free values: np.isfinite is true", "arrays of the model stand for floating-point arrays (np.issubdtype(dtype, np.integer) is false): integer-typed values and fields are covered by bounded native cases only"]
 NOT_COVERED = [
     "UserBC, value_is_linked (value read through a memory address), gamma = infinity: bounded native check only",
     "the sympy meaning of expression texts (C11): only the arithmetic templates around the user text are proved",
